@@ -4,7 +4,7 @@
    components every Lisp-level text goes through: the reader and format's control-string scanner,
    each as a model in which every index and slice is bounds-checked. *)
 From C02 Require Import Model Spec Proofs.
-From C09 Require Import Format FormatProofs Reader.
+From C09 Require Import Format FormatProofs Reader Stream.
 
 (* (1) the reader: for every table set accepted by table_ok (re-proved on the regenerated tables on
    every run of C02 and C09), every state a read can reach, every byte: the bounds-checked step is
@@ -65,6 +65,25 @@ Theorem C09_format_tab_product_fits : forall params colnum colinc,
   (0 <= colnum * colinc < 2 ^ 63)%Z.
 Proof. exact dir_t_product_fits. Qed.
 Print Assumptions C09_format_tab_product_fits.
+
+(* (9) the stream readers: for every table set accepted by table_ok, every text, every way an io.Reader may
+   cut it into blocks (empty blocks, the end of the stream as a block of its own), all-objects and one-form
+   mode: the stream reader with every index and slice checked, which starts every block with tokenStart 0
+   as ReadStream / ReadStreamPush / ReadStreamEach do, never faults and equals the stream model of C02.
+   That the reset is needed exactly there is shown by two refutations on the regenerated tables
+   (C09/StreamTables.v, re-checked on every run: C09_stream_when_saved_refuted, C09_stream_keep_refuted) *)
+Theorem C09_stream_reset_no_fault : forall T esc one blocks, table_ok T = true ->
+  m_stream_c T esc one TsReset m0 blocks 0 = CRes (m_read_stream T esc one m0 blocks 0).
+Proof. exact stream_c_reset_no_fault. Qed.
+Print Assumptions C09_stream_reset_no_fault.
+
+(* (10) where the policy of resetting only after a save coincides with the code: at every block end inside
+   a lexeme of which at least one byte lies in the block *)
+Theorem C09_stream_when_saved_agrees : forall m src,
+  (token_like (c_mode (m_core m)) || string_like (c_mode (m_core m)))%bool = true -> m_ts m < length src ->
+  block_end_p TsWhenSaved m src = block_end_p TsReset m src.
+Proof. exact block_end_p_when_saved. Qed.
+Print Assumptions C09_stream_when_saved_agrees.
 
 (* FULL STATEMENT of the property (not a theorem here): for every Lisp-level input - text, function
    application, control string - the outcome is a value or a Lisp condition.  For the ~770 built-ins
